@@ -2,6 +2,8 @@
 import random
 from c01 import b32, N
 LEVEL = "model_checking"
+GROUPS = ["whitelist", "keys"]
+REPLAY_STATELESS = True
 MODULE = "C16_Whitelist.tla"
 TRACE = (MODULE, "C16_trace.cfg")
 REG = dict(category="model_checking",
